@@ -273,6 +273,10 @@ func errClass(s string) string {
 		return "savepoint"
 	case strings.Contains(l, "25p02"), strings.Contains(l, "transaction is aborted"):
 		return "aborted-block"
+	case strings.Contains(l, "copy-row-error"):
+		return "copy-row-error"
+	case strings.Contains(l, "syntax error"):
+		return "syntax"
 	}
 	if i := strings.Index(s, "desc = "); i >= 0 {
 		s = s[i+7:]
@@ -638,55 +642,37 @@ func (s *sess) runGRPC(p *prog) {
 		}
 		o := s.grpcStmt(p, tid, st)
 		k.touch(t, st)
+		o.Cont = o.Err != "" && st.K == kBadSel // a failed query leaves the transaction open
 		t.Obs = append(t.Obs, o)
-		if o.Err != "" && st.K != kBadSel {
+		if o.Err != "" && !o.Cont {
 			t.Aborted = errClass(o.Err)
 			break
 		}
 	}
 	ctx := txCtx(s.sid, tid)
 	if t.Aborted != "" {
-		// the failed statement aborted the transaction: whatever is tried now must leave nothing visible
+		// the failed statement aborted the transaction: whatever the client still sends must leave nothing visible
+		t.Outcome = "aborted-by-" + t.Aborted
+		k.followUps(t, "error", func(st *stmt) (string, string) {
+			o := s.grpcStmt(p, tid, st)
+			return o.Err, ""
+		})
 		k.section(func(base *state) *state {
 			var err error
-			what := onErrName[p.OnErr]
-			switch p.OnErr {
-			case onErrCommit:
-				var cr *schema.CommittedSQLTx
-				cr, err = k.e.ic.Commit(ctx, &emptypb.Empty{})
+			switch p.End2 {
+			case endCommit:
+				_, err = k.e.ic.Commit(ctx, &emptypb.Empty{})
 				if err == nil {
 					k.c.Count("grpc_commit_acknowledged_after_failed_statement", 1)
-					_ = cr
 				}
-			case onErrRollback:
+			case endRollback:
 				_, err = k.e.ic.Rollback(ctx, &emptypb.Empty{})
-			case onErrProbe:
-				o := s.grpcStmt(p, tid, p.Probe)
-				if o.Err == "" {
-					k.c.Count("grpc_statement_accepted_after_failed_statement", 1)
-				} else {
-					err = fmt.Errorf("%s", o.Err)
-				}
-				what += " (" + p.Probe.text() + ")"
-				k.e.ic.Rollback(ctx, &emptypb.Empty{})
 			default:
-				what = "then " + endName[p.End]
-				switch p.End {
-				case endCommit:
-					_, err = k.e.ic.Commit(ctx, &emptypb.Empty{})
-					if err == nil {
-						k.c.Count("grpc_commit_acknowledged_after_failed_statement", 1)
-					}
-				case endRollback:
-					_, err = k.e.ic.Rollback(ctx, &emptypb.Empty{})
-				default:
-					err = k.e.closeSession(s.sid)
-					s.sid = ""
-				}
+				err = k.e.closeSession(s.sid)
+				s.sid = ""
 			}
-			t.Outcome = "aborted-by-" + t.Aborted
-			k.c.Count("after_failure/"+fe+"/"+onErrName[p.OnErr]+"/"+errClass(errStr(err)), 1)
-			return k.expect(base, t, fe+"/aborted-tx-visible/"+onErrName[p.OnErr], "after the failed statement of "+t.name()+", "+what)
+			k.c.Count("after_failure/"+fe+"/"+endName[p.End2]+"/"+errClass(errStr(err)), 1)
+			return k.expect(base, t, fe+"/aborted-tx-visible/"+endName[p.End2], "after the failed statement of "+t.name()+", the follow-ups ["+afterText(p.After)+"], then "+endName[p.End2])
 		})
 		k.distinct(t)
 		return
@@ -840,6 +826,22 @@ func (s *sess) pgSend(proto int, lit string, par string, ps []any) (pgRes, strin
 }
 
 func (s *sess) pgStmt(p *prog, n int, st *stmt) obs {
+	if st.K == kCopy {
+		q, _ := st.sql(pmLiteral)
+		ct, err := s.pg.c.CopyFrom(bg(), strings.NewReader(st.copyData()), q)
+		o := obs{St: st, N: -1, Tag: ct.String(), Via: "copy"}
+		et, broken := pgErrText(err)
+		switch {
+		case broken:
+			o.Err = "connection: " + et
+		case et != "":
+			o.Err = et
+		case s.pg.c.TxStatus() == 'E':
+			// the reply to COPY does not say that a row failed; the transaction status does
+			o.Err = "copy-row-error (status E after " + o.Tag + ")"
+		}
+		return o
+	}
 	l, _ := st.sql(pmLiteral)
 	q, ps := st.sql(pmDollar)
 	r, via := s.pgSend(s.pgProto(p, n), l, q, ps)
@@ -883,6 +885,7 @@ func (s *sess) runPG(p *prog) {
 	if r.Status != 'T' {
 		k.c.Count("pg_status_not_T_after_BEGIN", 1)
 	}
+	hazard := ""
 	for i, st := range p.Stmts {
 		if st.K == kPeek {
 			k.section(func(base *state) *state {
@@ -891,42 +894,61 @@ func (s *sess) runPG(p *prog) {
 			t.Obs = append(t.Obs, obs{St: st})
 			continue
 		}
+		if st.K == kUse {
+			// the session drops its transaction; the server goes on reporting an open block
+			k.section(func(base *state) *state {
+				o := s.pgStmt(p, i, st)
+				k.c.Count("pg_use_inside_block/"+errClass(o.Err)+"/status-"+string(rune(s.pg.c.TxStatus())), 1)
+				return k.expect(base, t, fe+"/use-inside-block-commits", "after USE inside the block of "+t.name())
+			})
+			hazard = "use"
+			break
+		}
+		if st.K == kCopy {
+			// a COPY may apply rows outside the block (after a row error): run it where that can be seen at once
+			var o obs
+			k.section(func(base *state) *state {
+				o = s.pgStmt(p, i, st)
+				return k.expect(base, t, fe+"/copy-in-block-rows-applied-outside-transaction", "right after "+st.text()+" inside the block of "+t.name()+" (reply "+o.Tag+" "+o.Err+")")
+			})
+			k.touch(t, st)
+			t.Obs = append(t.Obs, o)
+			if o.Err != "" {
+				t.Aborted = errClass(o.Err)
+				break
+			}
+			continue
+		}
 		o := s.pgStmt(p, i, st)
 		k.touch(t, st)
+		// a failed query or a text that does not parse leaves the block open, unless the server says otherwise ('E')
+		o.Cont = o.Err != "" && (st.K == kBadSel || st.K == kSyntax) && s.pg != nil && s.pg.c.TxStatus() != 'E'
 		t.Obs = append(t.Obs, o)
-		if o.Err != "" && st.K != kBadSel {
+		if o.Err != "" && !o.Cont {
 			t.Aborted = errClass(o.Err)
 			break
 		}
 	}
 	end := p.End
-	if t.Aborted != "" {
-		t.Outcome = "aborted-by-" + t.Aborted
-		switch p.OnErr {
-		case onErrCommit:
-			end = endCommit
-		case onErrRollback:
-			end = endRollback
-		case onErrProbe:
-			end = endRollback
-			// one more statement inside the block that the server still reports as open ('T'): whatever the server
-			// does with it, it belongs to the block and must be gone after ROLLBACK
-			k.section(func(base *state) *state {
-				o := s.pgStmt(p, 900, p.Probe)
-				k.c.Count("after_failure/pgwire/statement/"+errClass(o.Err), 1)
-				if o.Err != "" {
-					return nil
-				}
-				st := s.pg.c.TxStatus()
-				rb, _ := s.pgSend(protoSimple, "ROLLBACK", "", nil)
-				k.c.Count("after_failure/pgwire/statement-then-rollback/"+errClass(rb.Err), 1)
-				return k.expect(base, t, fe+"/statement-after-error-in-block-survives-rollback",
-					fmt.Sprintf("%s: a statement failed inside BEGIN…, the next statement %q was accepted (transaction status reported '%c'), then ROLLBACK (%s)", t.name(), p.Probe.text(), st, errClass(rb.Err)))
-			})
-			k.distinct(t)
-			return
+	if t.Aborted != "" || hazard != "" {
+		if hazard == "" {
+			hazard = "error"
+		} else {
+			t.Aborted = hazard
 		}
-		what := "after the failed statement of " + t.name() + ", then " + endName[end]
+		t.Outcome = "aborted-by-" + t.Aborted
+		end = p.End2
+		if hazard == "use" && end == endCommit {
+			end = endRollback // what COMMIT should do after an accepted USE is not specified: only ends that must leave nothing are used
+		}
+		k.followUps(t, hazard, func(st *stmt) (string, string) {
+			o := s.pgStmt(p, 900, st)
+			if s.pg == nil {
+				return o.Err, ""
+			}
+			return o.Err, "status " + string(rune(s.pg.c.TxStatus())) + " " + o.Tag
+		})
+		what := "after " + hazard + " inside the block of " + t.name() + ", the follow-ups [" + afterText(p.After) + "], then " + endName[end]
 		k.section(func(base *state) *state {
 			switch end {
 			case endCommit:
@@ -1106,7 +1128,45 @@ func (k *cas) distinct(t *txRec) {
 		end = "-"
 	}
 	if t.Aborted != "" && !p.Auto {
-		end = "error-" + onErrName[p.OnErr]
+		end = "error-" + endName[p.End2]
 	}
 	k.c.Distinct(fmt.Sprintf("%s/%s/%s/%s/%s/%s", feName[p.FE], mode, proto, shape, end, t.Outcome))
+}
+
+// followUps sends what the program still has to say inside a block (or server-side transaction) that is no longer
+// usable: a statement failed (the engine cancelled the transaction) or USE made the session drop it. Whatever the
+// front-end answers, the client has not ended the block, so nothing it sends may become visible to another session.
+func (k *cas) followUps(t *txRec, hazard string, send func(st *stmt) (errText, info string)) {
+	fe := feName[t.P.FE]
+	lastSave := "sp_none"
+	for i := range t.Obs {
+		if t.Obs[i].St.K == kSave && t.Obs[i].Err == "" {
+			lastSave = t.Obs[i].St.Name
+		}
+	}
+	path := hazard
+	var log []string
+	for _, f := range t.P.After {
+		st := *f
+		if st.Name == "@sp" {
+			st.Name = lastSave
+		}
+		k.section(func(base *state) *state {
+			errText, info := send(&st)
+			cls := errClass(errText)
+			log = append(log, fmt.Sprintf("%s -> %s %s", st.text(), cls, info))
+			k.c.Count("after_failure/"+fe+"/follow-up/"+kindName[st.K]+"/"+cls, 1)
+			k.c.Distinct(fmt.Sprintf("%s/follow-up-after-%s/%s/%s", fe, hazard, kindName[st.K], cls))
+			sig := fe + "/statement-in-aborted-block-applied/after-" + path
+			if st.K == kCopy {
+				sig += "/copy" // COPY does not go through the statement path
+			}
+			next := k.expect(base, t, sig,
+				fmt.Sprintf("%s: after %s inside its block the client sent\n    %s\nwithout ending the block", t.name(), hazard, strings.Join(log, "\n    ")))
+			if errText == "" && !st.K.isDML() && !st.K.isQuery() && !strings.Contains(path, kindName[st.K]) && strings.Count(path, "+") < 2 {
+				path += "+" + kindName[st.K] // an accepted SAVEPOINT / ROLLBACK TO / RELEASE / BEGIN names the route to a later leak
+			}
+			return next
+		})
+	}
 }
